@@ -1,1 +1,28 @@
-fn main() {}
+//! mon_fixed: monitors over derive-compiled parsers built from the working tree
+//! (one sub-command per property; each invocation is one single-threaded shard).
+mod c16;
+mod c18;
+// mod c14;   // <- maintainer: C14 (bootstrapped grammar parser) goes here
+
+use vmon::shard::Args;
+
+/// Runs `f` on a thread with a large stack (recursive descent depth is input dependent).
+pub fn with_big_stack<T: Send + 'static>(f: impl FnOnce() -> T + Send + 'static) -> T {
+    std::thread::Builder::new().stack_size(1 << 30).spawn(f).unwrap().join().unwrap()
+}
+
+fn main() {
+    let argv: Vec<String> = std::env::args().collect();
+    let args = Args::parse(&argv);
+    vmon::pestrun::quiet_panics();
+    let a = args.clone();
+    with_big_stack(move || match a.prop.as_str() {
+        "c16" => c16::run(&a),
+        "c18" => c18::run(&a),
+        // "c14" => c14::run(&a),   // <- maintainer: add C14 here
+        other => {
+            eprintln!("unknown sub-command {other}");
+            std::process::exit(3);
+        }
+    });
+}
